@@ -453,8 +453,9 @@ func (m *Encoder) encodeTimeDate(v reflect.Value) error {
 
 // EncodeDecimal encodes an ion.Decimal to the output writer as an Ion decimal.
 func (m *Encoder) encodeDecimal(v reflect.Value) error {
-	d := v.Addr().Interface().(*Decimal)
-	return m.w.WriteDecimal(d)
+	// v need not be addressable (a struct passed by value, a map element, ...).
+	d := v.Interface().(Decimal)
+	return m.w.WriteDecimal(&d)
 }
 
 func (m *Encoder) encodeWithAnnotation(v reflect.Value, fields []field) error {
